@@ -178,5 +178,6 @@ EXEMPT_MODE = {
 
 def mode_rules(repo, pid, modules):
     from .ipalias import rule_ipalias
+    from .unused import rule_unused
     return [rule_dtype_mod(repo, pid + '.DTMOD', modules, EXEMPT_DT), rule_mode(repo, pid + '.MODE', modules, EXEMPT_MODE),
-            rule_ipalias(repo, pid + '.IPA', modules)]
+            rule_ipalias(repo, pid + '.IPA', modules), rule_unused(repo, pid + '.UNUSED', modules)]
